@@ -14,7 +14,7 @@ CHECK = {
     "design_ref": "DESIGN.md §5 C06",
     "technique": "seeded request histories on the real resources over a recording PageAllocator and a recording "
                  "std::pmr upstream; block patterns + sort-based disjointness / containment oracle at every quiescent "
-                 "point; ASan with babylon's own arena poisoning, UBSan, TSan for the per-thread hand-off",
+                 "point; ASan with babylon's own arena poisoning, UBSan, TSan for the per-thread hand-off; destructors-before-memory-return ordering oracle inside one release window",
     "level_text": ("Runtime monitoring: random histories of allocate(bytes, align) (zero, 1..64, page-k, page, page+k, "
                    "2-3 pages; alignment 1 .. 4 x page) through every entry point (direct, virtual, std::pmr, templated "
                    "alignment), register_destructor / get_destroy_task, contains, release, destruction, move-assignment and "
